@@ -5,11 +5,11 @@ d=$1; shift
 W=${SEEDTEST:-/tmp/seedtest}
 git -C $W checkout -q -- . ; git -C $W clean -qfd -e '*.so' -e build >/dev/null
 git -C $W checkout -q --detach $(git -C /repo rev-parse HEAD) 2>/dev/null
-echo "## demo on clean tree:"; (cd $W && timeout 300 /venv/bin/python $d/demo.py >/tmp/seed_demo.out 2>&1; echo "exit=$?"; tail -2 /tmp/seed_demo.out)
-if ! git -C $W apply --3way $d/patch.diff 2>/tmp/seed_apply.err; then echo "PATCH DOES NOT APPLY"; cat /tmp/seed_apply.err; exit 3; fi
+echo "## demo on clean tree:"; (cd $W && timeout 300 /venv/bin/python $d/demo.py >${W}_demo.out 2>&1; echo "exit=$?"; tail -2 ${W}_demo.out)
+if ! git -C $W apply --3way $d/patch.diff 2>${W}_apply.err; then echo "PATCH DOES NOT APPLY"; cat ${W}_apply.err; exit 3; fi
 CCHANGED=0
 if git -C $W diff HEAD --name-only | grep -q '\.[ch]$'; then CCHANGED=1; (cd $W && /venv/bin/python setup.py -q build_ext --inplace --force >/dev/null 2>&1); fi
-echo "## demo with change:"; (cd $W && timeout 300 /venv/bin/python $d/demo.py >/tmp/seed_demo.out 2>&1; echo "exit=$?"; tail -2 /tmp/seed_demo.out)
+echo "## demo with change:"; (cd $W && timeout 300 /venv/bin/python $d/demo.py >${W}_demo.out 2>&1; echo "exit=$?"; tail -2 ${W}_demo.out)
 for c in "$@"; do
   echo "## check $c on changed tree:"
   VERIF_REPO=$W VERIF_BUILD=${W}_build ./check $c --no-evidence 2>&1 | grep -E "^VIOLATION|^C[0-9]+ |INCONCL|mechanism" | cut -c1-260
